@@ -1,6 +1,6 @@
 #!/bin/bash
 # evaluates every seeded change in a scratch worktree of its own (patch applied there, /repo untouched), N at a time:
-# usage: seed_eval_par.sh [N] ; writes seeded/last_eval.txt (one line per change: id property rc verdict VIOLATION-line)
+# usage: [ONLY=regex] [SKIP=regex] [OUT=suffix] seed_eval_par.sh [N] ; writes seeded/last_eval.txt (one line per change: id property rc verdict VIOLATION-line)
 N=${1:-3}
 cd /verif
 one() {
@@ -15,6 +15,6 @@ one() {
   git -C /repo worktree remove --force $wt >/dev/null 2>&1; rm -rf /tmp/vbA-$s
 }
 export -f one
-ls -d seeded/C*/ | xargs -n1 basename | xargs -P $N -I{} bash -c 'one {}' > seeded/last_eval.tmp
-sort seeded/last_eval.tmp > seeded/last_eval.txt; rm -f seeded/last_eval.tmp
-echo DONE >> seeded/last_eval.txt
+ls -d seeded/C*/ | xargs -n1 basename | grep -E "${ONLY:-.}" | grep -vE "${SKIP:-^\$}" | xargs -P $N -I{} bash -c 'one {}' > seeded/last_eval${OUT:-}.tmp
+sort seeded/last_eval${OUT:-}.tmp > seeded/last_eval${OUT:-}.txt; rm -f seeded/last_eval${OUT:-}.tmp
+echo DONE >> seeded/last_eval${OUT:-}.txt
